@@ -297,15 +297,23 @@ SubCall(c, subs) ==
   /\ GotPkt(c, "SUBSCRIBE") /\ subs = cl[c].pkt.subs
   /\ tok[c].s > 0
   /\ tok' = [tok EXCEPT ![c].s = @ - 1]
-  /\ LET repl == {subs[i].f : i \in 1..Len(subs)} IN      \* a later entry for the same filter within one packet wins
+  /\ SetCl(c, [cl[c] EXCEPT !.pc = "sub"])
+  /\ UNCHANGED <<link, up, down, dq, ackq, ackdue, pubctx, sess, retained, cfg, closing, ghost>>
+
+\* silent: the subscription takes effect inside the call (MemoryBackend.Subscribe first waits for the backend's global lock:
+\* publishes that are fanned out meanwhile do not see it yet)
+SubApply(c) ==
+  /\ cl[c].pc = "sub"
+  /\ LET subs == cl[c].pkt.subs
+         repl == {subs[i].f : i \in 1..Len(subs)} IN      \* a later entry for the same filter within one packet wins
      sess' = [sess EXCEPT ![cl[c].sk].subs = {y \in @ : y.f \notin repl} \cup
                  {subs[i] : i \in {j \in 1..Len(subs) : \A k \in (j + 1)..Len(subs) : subs[k].f # subs[j].f}}]
-  /\ SetCl(c, [cl[c] EXCEPT !.pc = "sub"])
-  /\ UNCHANGED <<link, up, down, dq, ackq, ackdue, pubctx, retained, cfg, closing, ghost>>
+  /\ SetCl(c, [cl[c] EXCEPT !.pc = "sub.applied"])
+  /\ UNCHANGED <<link, up, down, dq, ackq, ackdue, tok, pubctx, retained, cfg, closing, ghost>>
 
 \* the backend acknowledges the subscription; retained messages matching each filter are queued (one copy per matching filter)
 SubAck(c) ==
-  /\ cl[c].pc = "sub"
+  /\ cl[c].pc = "sub.applied"
   /\ LET subs == cl[c].pkt.subs
          codes == [i \in 1..Len(subs) |-> subs[i].q]
      IN /\ \/ ackq' = [ackq EXCEPT ![c] = Append(@, [t |-> "SUBACK", id |-> cl[c].pkt.id, codes |-> codes])]
@@ -324,7 +332,7 @@ SubReplay(c, i, m) ==
   /\ UNCHANGED <<link, up, down, dq, ackq, ackdue, tok, pubctx, retained, cfg, closing, ghost>>
 
 SubRet(c, err) ==
-  /\ cl[c].pc \in {"sub", "sub.acked"}
+  /\ cl[c].pc \in {"sub", "sub.applied", "sub.acked"}
   /\ G("C11", "SubscribeReplaysExactlyMatching",
        (err = "" /\ cl[c].pc = "sub.acked") =>
          \A i \in 1..Len(cl[c].pkt.subs) : \A m \in retained : Matches(cl[c].pkt.subs[i].f, m.top) => <<i, m.m>> \in cl[c].replayed)
@@ -336,19 +344,25 @@ UnsubCall(c, topics) ==
   /\ GotPkt(c, "UNSUBSCRIBE") /\ topics = cl[c].pkt.topics
   /\ tok[c].s > 0
   /\ tok' = [tok EXCEPT ![c].s = @ - 1]
-  /\ sess' = [sess EXCEPT ![cl[c].sk].subs = {y \in @ : y.f \notin SeqSet(topics)}]
   /\ SetCl(c, [cl[c] EXCEPT !.pc = "unsub"])
-  /\ UNCHANGED <<link, up, down, dq, ackq, ackdue, pubctx, retained, cfg, closing, ghost>>
+  /\ UNCHANGED <<link, up, down, dq, ackq, ackdue, pubctx, sess, retained, cfg, closing, ghost>>
+
+\* silent: the subscriptions are removed inside the call
+UnsubApply(c) ==
+  /\ cl[c].pc = "unsub"
+  /\ sess' = [sess EXCEPT ![cl[c].sk].subs = {y \in @ : y.f \notin SeqSet(cl[c].pkt.topics)}]
+  /\ SetCl(c, [cl[c] EXCEPT !.pc = "unsub.applied"])
+  /\ UNCHANGED <<link, up, down, dq, ackq, ackdue, tok, pubctx, retained, cfg, closing, ghost>>
 
 UnsubAck(c) ==
-  /\ cl[c].pc = "unsub"
+  /\ cl[c].pc = "unsub.applied"
   /\ \/ ackq' = [ackq EXCEPT ![c] = Append(@, [t |-> "UNSUBACK", id |-> cl[c].pkt.id])]
      \/ cl[c].dying /\ ackq' = ackq
   /\ SetCl(c, [cl[c] EXCEPT !.pc = "unsub.acked"])
   /\ UNCHANGED <<link, up, down, dq, ackdue, tok, pubctx, sess, retained, cfg, closing, ghost>>
 
 UnsubRet(c, err) ==
-  /\ cl[c].pc \in {"unsub", "unsub.acked"}
+  /\ cl[c].pc \in {"unsub", "unsub.applied", "unsub.acked"}
   /\ SetCl(c, [cl[c] EXCEPT !.pc = IF err = "" THEN "idle" ELSE "dead", !.beerr = (err # "")])
   /\ UNCHANGED <<link, up, down, dq, ackq, ackdue, tok, pubctx, sess, retained, cfg, closing, ghost>>
 
